@@ -162,6 +162,12 @@ pub fn check(sc: &Scen, obs: &Obs) -> Vec<Violation> {
                         if !ok {
                             out.push(viol("a", "wrong-body:close-delimited".into(), format!("{}: body {:?} but the server sent {:?} before closing", describe(), mc_core::show_short(b, 40), mc_core::show_short(delivered_body, 40))));
                         }
+                    } else if b.is_empty() && !r.body.is_empty() && spec.framing.has_upgrade_header() && sv.delivered >= r.head_len {
+                        out.push(viol(
+                            "a",
+                            "body-ignored:response-with-upgrade-websocket-header".into(),
+                            format!("{}: the response carries `upgrade: websocket` and a Content-Length body of {} bytes; the body was not delivered (empty success at the head end)", describe(), r.body.len()),
+                        ));
                     } else if !complete {
                         out.push(viol(
                             "a",
@@ -174,12 +180,6 @@ pub fn check(sc: &Scen, obs: &Obs) -> Vec<Violation> {
                                 b.len(),
                                 mc_core::show_short(b, 40)
                             ),
-                        ));
-                    } else if b.is_empty() && !r.body.is_empty() && spec.framing.has_upgrade_header() {
-                        out.push(viol(
-                            "a",
-                            "body-ignored:response-with-upgrade-websocket-header".into(),
-                            format!("{}: the response carries `upgrade: websocket` and a Content-Length body of {} bytes; the body was not delivered (empty success)", describe(), r.body.len()),
                         ));
                     } else if *b != r.body {
                         out.push(viol(
@@ -226,20 +226,30 @@ pub fn check(sc: &Scen, obs: &Obs) -> Vec<Violation> {
             let svp = &obs.served[p];
             let complete_p = svp.conn == Some(ci) && svp.delivered >= rp.framed_len;
             let ctx = format!(
-                "request {j} was written on connection {ci} after request {p} ({} / consumer {} / {} / leftover {:?})",
+                "request {j} was written on connection {ci} after request {p} ({}{} {} / consumer {} / {} / leftover {:?})",
+                sc.reqs[p].kind.label(),
+                sc.reqs[p].interim.label(),
                 sc.reqs[p].framing.label(),
                 sc.reqs[p].consumer.label(),
                 region(&sc.reqs[p], rp),
                 sc.reqs[p].leftover
             );
-            if let Some(why) = rp.not_persistent {
+            let interim_as_final = matches!(&obs.outs[p], ReqOut::Head { status, .. } if (100..200).contains(status) && *status != rp.status);
+            let upgrade_body_ignored = sc.reqs[p].framing.has_upgrade_header()
+                && !rp.body.is_empty()
+                && matches!(&obs.outs[p], ReqOut::Head { body, .. } if match body {
+                    BodyOut::Ok(b) => b.is_empty(),
+                    BodyOut::Dropped | BodyOut::Partial(None) => true,
+                    _ => false,
+                });
+            if interim_as_final {
+                out.push(viol("b", "reuse:response-not-read-to-end:interim-taken-as-final".into(), format!("{ctx}: an interim 1xx response had been taken for the final response; the final response of that exchange was not read")));
+            } else if upgrade_body_ignored {
+                out.push(viol("b", "reuse:response-not-read-to-end:body-ignored-upgrade-websocket-header".into(), format!("{ctx}: the Content-Length body of that response (which carries `upgrade: websocket`) was never read")));
+            } else if let Some(why) = rp.not_persistent {
                 out.push(viol("b", format!("reuse:non-persistent:{why}"), format!("{ctx}: that exchange did not leave a persistent connection ({why})")));
             } else if !read_to_end(&obs.outs[p], rp, complete_p, p) {
                 let how = match &obs.outs[p] {
-                    ReqOut::Head { status, .. } if (100..200).contains(status) => "interim-taken-as-final",
-                    ReqOut::Head { body: BodyOut::Ok(b), .. } if b.is_empty() && sc.reqs[p].framing.has_upgrade_header() && complete_p => {
-                        "body-ignored-upgrade-websocket-header"
-                    }
                     ReqOut::Head { body: BodyOut::Dropped, .. } => "dropped-after-head",
                     ReqOut::Head { body: BodyOut::Partial(_), .. } => "dropped-after-partial-read",
                     ReqOut::Head { body: BodyOut::Err { .. }, .. } => "body-error",
@@ -250,7 +260,9 @@ pub fn check(sc: &Scen, obs: &Obs) -> Vec<Violation> {
                 out.push(viol("b", format!("reuse:response-not-read-to-end:{how}"), format!("{ctx}: that response had not been read to its end ({how})")));
             }
             if let Some(s) = obs.conn_starts[ci].iter().find(|s| s.ordinal == m) {
-                if s.unread > 0 {
+                // (when the earlier exchange was mis-framed by one of the two causes above, the
+                // unread bytes are its real response: already reported there)
+                if s.unread > 0 && !interim_as_final && !upgrade_body_ignored {
                     out.push(viol(
                         "b",
                         "reuse:unread-bytes-on-connection".into(),
